@@ -149,6 +149,10 @@ def generate(rng, prop, tier):
     risky = rng.chance(0.06) and prop == 'C03'
     keys, risky_tags = _pick_keys(rng, label, risky)
     values = value_domain(label)
+    bigvals = label not in ('file-src', 'dir-src', 'null') and rng.chance(0.035)
+    if bigvals:
+        # values larger than one MiB (also after compression): block-wise readers/writers, several write buffers
+        values = list(values) + [{'$big': 'rep'}, {'$big': 'hex'}, {'$big': 'hex'}]
     cached = (prop == 'C03' and rng.chance(0.08))
     nsib = rng.weighted([(5, 0), (4, 1), (2, 2)]) if label != 'sql-mem' else 0
     case = {
@@ -166,6 +170,8 @@ def generate(rng, prop, tier):
         'observe': rng.weighted([(7, 'full'), (3, 'sparse')]),
     }
     n = rng.randint(4, 30) if not rng.chance(0.1) else rng.randint(30, 70)
+    if bigvals:
+        n = rng.randint(4, 12)
     table = C03_OPS if prop == 'C03' else C04_OPS
     ops = []
     ncopies = 0
